@@ -11,6 +11,8 @@ import (
 
 type IntrospectionResolver struct {
 	Variables map[string]interface{}
+	// RootTypename is the name of the root type of the operation, the answer to a root __typename
+	RootTypename string
 }
 
 func (ir *IntrospectionResolver) ResolveIntrospectionFields(selectionSet ast.SelectionSet, schema *ast.Schema) map[string]interface{} {
@@ -25,6 +27,11 @@ func (ir *IntrospectionResolver) ResolveIntrospectionFields(selectionSet ast.Sel
 		case "__schema":
 			introspectionResult[f.Alias] = ir.resolveSchema(schema, f.SelectionSet)
 			isIntrospection = true
+		case common.TypenameFieldName:
+			if ir.RootTypename != "" {
+				introspectionResult[f.Alias] = ir.RootTypename
+				isIntrospection = true
+			}
 		}
 	}
 
